@@ -366,6 +366,12 @@ def registry_rules(cls, tree):
     ps = [run.find(o) for o in order]
     if min(ps) < 0 or ps != sorted(ps):
         raise Untranslatable("CalculationExecutor.run: step order changed")
+    # the external branch of run() is exactly these five unconditional steps (the output file name is
+    # re-derived from the final name on EVERY run)
+    runf = find_func(cls.body, "run", "CalculationExecutor")
+    ext = [st for st in strip_doc(runf.body) if isinstance(st, ast.If) and ast.unparse(st.test) == "self.method.uses_external_io"]
+    if len(ext) != 1 or [ast.unparse(x) for x in ext[0].body] != order:
+        raise Untranslatable("CalculationExecutor.run: the external-io branch is no longer the five unconditional steps")
     # name construction
     init = ast.unparse(find_func(cls.body, "__init__", "CalculationExecutor"))
     if "self.name = f'{_string_without_leading_hyphen(name)}_{method.name}'" not in init:
